@@ -549,6 +549,8 @@ def reduce_sum(st, a, axis=None, opaque=False):
         return a
     shape, fn, kind = info(st, a)
     if axis is None:
+        # a dimension that the path condition fixes to a small constant (e.g. "if n_ap == 1:") is that constant
+        shape = tuple(_implied_const(st, d) for d in shape)
         cur = PureArr(shape, fn, kind)
         while len(cur.shape) > 0:
             cur = _sum_axis(cur.shape, cur.fn, len(cur.shape) - 1, opaque)
@@ -560,6 +562,31 @@ def reduce_sum(st, a, axis=None, opaque=False):
     if not r.shape:
         return r.fn(())
     return r
+
+
+def _implied_const(st, d):
+    """d, or the small integer the path condition forces d to be (syntactic: a conjunct `d == c` / `c == d`)."""
+    if not isinstance(d, Sc):
+        return d
+
+    def conj(f):
+        if z3.is_and(f):
+            for ch in f.children():
+                for x in conj(ch):
+                    yield x
+        else:
+            yield f
+    for c in st.pc:
+        if not isinstance(c, Sc):
+            continue
+        for f in conj(c.t):
+            if z3.is_eq(f):
+                l, r = f.arg(0), f.arg(1)
+                if l.eq(d.t) and z3.is_int_value(r) and 0 <= r.as_long() <= 8:
+                    return r.as_long()
+                if r.eq(d.t) and z3.is_int_value(l) and 0 <= l.as_long() <= 8:
+                    return l.as_long()
+    return d
 
 
 def _sum_axis(shape, fn, ax, opaque=False):
